@@ -29,5 +29,16 @@ Print Assumptions C04_refused_or_confined.
 (* what the validation prevents: without it the join resolves the name to another location *)
 Example C04_unvalidated_escapes : join_bucket_key "bk1" "../../outside/canary.txt" = (["outside"; "canary.txt"], 1).
 Proof. vm_compute. reflexivity. Qed.
+(* the bookkeeping namespace of the storing backends is outside the key space: a key naming it is refused (an object stored
+   there would be served but never listed, and removed by DeleteBucket), and a valid name never starts with it *)
+Theorem C04_reserved_namespace_refused : forall r,
+  valid_object_name ".sgwtmp" = false /\ valid_object_name (".sgwtmp/" ++ r) = false.
+Proof. exact reserved_namespace_refused. Qed.
+Print Assumptions C04_reserved_namespace_refused.
+
+Theorem C04_valid_name_not_reserved : forall key, valid_object_name key = true -> first_reserved (split_char "/" key) = false.
+Proof. exact valid_name_not_reserved. Qed.
+Print Assumptions C04_valid_name_not_reserved.
+
 Example C04_valid_example : valid_object_name "a/b.c/..d/" = true /\ join_bucket_key "bk1" "a/b.c/..d/" = (["bk1"; "a"; "b.c"; "..d"], 0).
 Proof. vm_compute. split; reflexivity. Qed.
